@@ -51,6 +51,8 @@ def observe(v):
         return v.tag
     if v is runtime.UNDEFINED:
         return "UNDEF"
+    if v is None or isinstance(v, (bool, int, str)) or v == []:
+        return "VAL:" + repr(v)
     if isinstance(v, functools.partial):
         return "IMPORT:" + getattr(v.func, "__name__", "?")
     if isinstance(v, runtime.Namespace):
